@@ -1407,3 +1407,90 @@ def run_in_progress_not_failure(run, P, units=('coap_gnutls.c',), closer='coap_s
                               '`%s` is true for -1 (failed) AND for 0 (not completed yet) and leads to %s(): a handshake that is merely still running - the normal answer after a '
                               'retransmission timer - is torn down' % (short(c)[:60], closer))
     run.require_count(n >= 1 or run.cfg != 'base' or run.fixture_mode, 'R-ROUTE (in progress is not failure): no direct test of a tri-state handshake function found')
+
+
+def run_one_nack_per_disconnect(run, P, nack='coap_handle_nack', delete='coap_delete_node_lkd'):
+    """R-RETRANS (reported in place, then reported again): draining reporters are computed - functions with a loop that both reports
+    (coap_handle_nack) and deletes (coap_delete_node_lkd) queue nodes (coap_cancel_session_messages: every Confirmable of the session).  A
+    function that reports a node of the send queue IN PLACE (`coap_handle_nack(S, q->pdu, ..)` with q taken from a walk of `->sendqueue` and left
+    there) does not go on, on the same path, to call a draining reporter - unless the path knows the reported message not Confirmable: the
+    oldest in-flight request would be NACKed twice for one disconnect."""
+    from rules.r_sizefill import natural_loops
+    run.rule('R-RETRANS')
+    drainers = set()
+    for f in P.lib_funcs():
+        try:
+            loops = natural_loops(f)
+        except KeyError:
+            continue
+        for h, body in loops.items():
+            calls = set(t.get('fn') for bid in body for ev in f['B'][bid]['elems'] for t in walk(ev['e']) if isinstance(t, dict) and t.get('k') == 'call')
+            # ... of the SEND queue: the loop (its conditions or statements) works on `->sendqueue`
+            on_sendq = any(isinstance(y, dict) and y.get('k') == 'mem' and y.get('f') == 'sendqueue'
+                           for bid in body for it in ([ev['e'] for ev in f['B'][bid]['elems']] + [((f['B'][bid].get('term') or {}).get('cond') or {})]) for y in walk(it))
+            if nack in calls and delete in calls and on_sendq:
+                drainers.add(f['name'])
+    if not drainers:
+        raise AnalysisBroken('R-RETRANS (one NACK per disconnect): no draining reporter found')
+    CON = P.const_named('COAP_MESSAGE_CON')
+    n = 0
+    for f in sorted(P.lib_funcs(), key=lambda f: f['name']):
+        if f['name'] in drainers:
+            continue
+        # queue cursors: locals assigned from `X->sendqueue` or from `q->next`
+        cursors = set()
+        for b, ev in P.events(f):
+            t = ev['e']
+            if t.get('k') == 'asg' and t.get('op') == '=' and ap(t['l']):
+                r = strip(t['r'])
+                if isinstance(r, dict) and r.get('k') == 'mem' and r.get('f') == 'sendqueue':
+                    cursors.add(ap(t['l']))
+        sites = []
+        for b, ev in P.events(f):
+            t = ev['e']
+            if t.get('k') == 'call' and t.get('fn') == nack and len(t.get('a') or ()) >= 2:
+                a1 = strip(t['a'][1])
+                if isinstance(a1, dict) and a1.get('k') == 'mem' and a1.get('f') == 'pdu' and ap(a1.get('b')) in cursors:
+                    sites.append((ev, ap(a1['b'])))
+        drains = [ev for b, ev in P.events(f) if ev['e'].get('k') == 'call' and ev['e'].get('fn') in drainers]
+        if not sites or not drains:
+            continue
+        name = f['name']
+        n += len(sites)
+        run.instance('R-RETRANS', '%s: reports a queued node in place and later calls %s()' % (name, '/'.join(sorted(set(d['e']['fn'] for d in drains)))))
+        rep = set()
+
+        def on_event(ev, env, ctx):
+            t0 = ev['e']
+            if t0.get('k') == 'asg' and t0.get('op') == '=' and ap(t0.get('l')) in cursors and ev.get('top'):
+                # the cursor walks the send queue only while its last assignment came from `->sendqueue` / its own `->next`
+                q0 = ap(t0['l'])
+                r0 = strip(t0['r'])
+                from_sq = isinstance(r0, dict) and r0.get('k') == 'mem' and (r0.get('f') == 'sendqueue' or (r0.get('f') == 'next' and ap(r0.get('b')) == q0 and env.ts.get('sq:' + q0)))
+                e = apply_generic(ev, env, None).copy()
+                if from_sq:
+                    e.ts['sq:' + q0] = 1
+                else:
+                    e.ts.pop('sq:' + q0, None)
+                return [e]
+            for sev, q in sites:
+                if ev is sev:
+                    if not env.ts.get('sq:' + q):
+                        return None
+                    lo, hi, ex = env.intf(q + '->pdu->type')
+                    notcon = (CON < lo or CON > hi or CON in ex)
+                    if notcon:
+                        return None
+                    e = apply_generic(ev, env, None).copy()
+                    e.ts['inplace'] = ev['loc']
+                    return [e]
+            if any(ev is d for d in drains) and env.ts.get('inplace'):
+                run.oblige('R-RETRANS', False, '%s:one-nack-per-disconnect' % name)
+                if ev['loc'] not in rep:
+                    rep.add(ev['loc'])
+                    run.violation('R-RETRANS', name, ev['loc'], 'reported-in-place-then-drained:%s' % ev['e']['fn'],
+                                  'a queued Confirmable was reported to the NACK handler in place (%s) and stays in the send queue; %s() reports every Confirmable of the session '
+                                  'again when it removes it: two NACKs for one request' % (env.ts['inplace'].rsplit('/', 1)[-1], ev['e']['fn']), ctx.path())
+            return None
+        solve(f, Env(), on_event, None, None, None, key_fn=lambda e: (e.ts.get('inplace'),) + tuple(sorted(k for k in e.ts if k.startswith('sq:'))) + tuple(sorted((k, v[0], v[1], tuple(sorted(v[2]))) for k, v in e.ints.items() if k.startswith('v') and '->' not in k)), max_envs=512)
+    run.require_count(n >= 1 or run.cfg != 'base' or run.fixture_mode, 'R-RETRANS (one NACK per disconnect): no in-place report followed by a draining reporter found')
